@@ -12,14 +12,14 @@ PID = "C05"
 LEVEL = "exploration"
 RULE = (
     "Dates: quick = all dates of 1999, 2000, 2024 + all month ends and month starts of every year 1990-2029; thorough = all 14,610 dates 1990-2029.  Notations: d.m.yyyy, dd.mm.yyyy, "
-    "d/m/yyyy, d-m-yyyy, d.m.yy (2000-2029), 'd. <Monat> yyyy', 'd <Month> yyyy', '<Month> dth yyyy', 'dth of <Month> yyyy'; each at several reference times (answer must equal the "
+    "d/m/yyyy, d-m-yyyy, dd/mm/yyyy, dd-mm-yyyy, d.m.yy (2000-2029), 'd. <Monat> yyyy', 'd <Month> yyyy', '<Month> dth yyyy', 'dth of <Month> yyyy'; each at several reference times (answer must equal the "
     "written date at all of them).  Date+clock: boundary dates x clock strings x notations, both orders.  Excluded and counted: month-name notations whose 4-digit year reads as a 24h time "
     "with minutes divisible by 5 (2000, 2005, ..., 2025), as the property states.  Non-trivial = every judged case (expected value is the written date); distinct = distinct (text, ts)."
 )
 ASSUMPTIONS = ["refcal validity of the enumerated dates", "two-digit years are written only for 2000-2029 (the code's fixed 20yy window in dd.mm.yy)"]
 
 SUFFIX = {1: "st", 2: "nd", 3: "rd", 21: "st", 22: "nd", 23: "rd", 31: "st"}
-CLOCKS = [("00:00", 0, 0), ("0:05", 0, 5), ("09:30", 9, 30), ("12:00", 12, 0), ("14:30", 14, 30), ("23:59", 23, 59), ("5pm", 17, 0), ("8 uhr", 8, None)]
+CLOCKS = [("00:00", 0, 0), ("0:05", 0, 5), ("09:30", 9, 30), ("01:00", 1, 0), ("12:05", 12, 5), ("12:00", 12, 0), ("14:30", 14, 30), ("23:59", 23, 59), ("5pm", 17, 0), ("8 uhr", 8, None)]
 
 
 def _ord(n):
@@ -40,6 +40,8 @@ def notations(d):
         ("dd.mm.yyyy", "{:02d}.{:02d}.{}".format(d.day, d.month, d.year)),
         ("d/m/yyyy", "{}/{}/{}".format(d.day, d.month, d.year)),
         ("d-m-yyyy", "{}-{}-{}".format(d.day, d.month, d.year)),
+        ("dd/mm/yyyy", "{:02d}/{:02d}/{}".format(d.day, d.month, d.year)),
+        ("dd-mm-yyyy", "{:02d}-{:02d}-{}".format(d.day, d.month, d.year)),
         ("d. Monat yyyy", "{}. {} {}".format(d.day, de, d.year)),
         ("d Month yyyy", "{} {} {}".format(d.day, en, d.year)),
         ("Month dth yyyy", "{} {} {}".format(en, _ord(d.day), d.year)),
@@ -71,9 +73,8 @@ def plan(tier, seed):
     dates = _dates(tier)
     edge = [t.isoformat() for t in refcal.EDGE_TS]
     ts_list = [edge[3], edge[1], edge[8]] if tier == "quick" else [edge[0], edge[1], edge[3], edge[6], edge[8], edge[11]]
-    bdates = [d for d in dates if d.day in (1, 29, 31) and d.year in ((1999, 2024) if tier == "quick" else range(1990, 2030, 1))]
-    if tier == "thorough":
-        bdates = [d for d in bdates if d.month in (1, 2, 3, 12)]
+    bdates = [d for d in dates if d.day in (1, 5, 12, 29, 31) and d.year in ((1999, 2024) if tier == "quick" else range(1990, 2030, 1))]
+    bdates = [d for d in bdates if d.month in ((1, 2, 3, 12) if tier == "thorough" else (2, 3, 12))]
 
     def gen():
         for d in dates:
@@ -87,7 +88,7 @@ def plan(tier, seed):
                         yield ("dt", key, text + " " + ctext, (d.year, d.month, d.day), (h, mi), ts)
                         yield ("td", key, ctext + " " + text, (d.year, d.month, d.day), (h, mi), ts)
 
-    space = {"dates": len(dates), "notations": 10, "reference_times": len(ts_list), "boundary_dates_for_clock_clause": len(bdates), "clock_strings": len(CLOCKS)}
+    space = {"dates": len(dates), "notations": 12, "reference_times": len(ts_list), "boundary_dates_for_clock_clause": len(bdates), "clock_strings": len(CLOCKS)}
     return {"space": space, "cases": gen(), "chunk": 256, "hash_distinct": tier == "quick"}
 
 
